@@ -5,10 +5,15 @@ import (
 	"math"
 	"math/big"
 	"math/rand"
+	"net/http"
+	"net/http/httptest"
+	"net/url"
 	"os"
 	"path/filepath"
 	"regexp"
+	"strconv"
 	"strings"
+	"sync"
 
 	wt "github.com/hnakamur/whispertool"
 
@@ -38,7 +43,7 @@ func (c19) Meta() fw.Meta {
 			"strings in neither class (redundant leading zeros; fractional seconds, which the Go time parser accepts after the seconds field) are not judged for acceptance, only for the returned value when accepted",
 			"CLI flag value types are unexported; they are sampled through the real binary (printed method names, retention lists and timestamps must be accepted with their meaning, malformed/out-of-range ones rejected) and exercised further by C12/C16",
 		},
-		Obligations: []string{"duration_roundtrips", "timestamp_roundtrips", "list_roundtrips", "method_roundtrips", "duration_strings_accepted", "duration_strings_rejected", "mustreject_checked", "overflow_numerals_rejected", "archiveinfo_strings_accepted", "archiveinfo_nonmultiple_rejected", "timestamp_strings_accepted", "timestamp_out_of_range_rejected", "timestamp_bad_field_rejected", "timestamp_render_checked", "cli_flag_checks"},
+		Obligations: []string{"duration_roundtrips", "timestamp_roundtrips", "list_roundtrips", "method_roundtrips", "duration_strings_accepted", "duration_strings_rejected", "mustreject_checked", "overflow_numerals_rejected", "archiveinfo_strings_accepted", "archiveinfo_nonmultiple_rejected", "timestamp_strings_accepted", "timestamp_out_of_range_rejected", "timestamp_bad_field_rejected", "timestamp_render_checked", "cli_flag_checks", "forwarded_requests_checked"},
 		Exhaustive:  func(tier string) bool { return tier == "thorough" },
 	}
 }
@@ -459,6 +464,65 @@ func (c19) Run(c *fw.Ctx) {
 			if res.Exit == 0 {
 				c.Violationf("cli-flag-timestamp-accepts", res.brief(), "view accepted -until %q", bad)
 			}
+		}
+		// the commands forward -from/-until/-archive (and their own clock) to a remote server in the printed syntax: what
+		// the server parses out of the request is what was given on the command line
+		{
+			var mu sync.Mutex
+			var seen []url.Values
+			var paths []string
+			stub := httptest.NewServer(http.HandlerFunc(func(w http.ResponseWriter, req *http.Request) {
+				mu.Lock()
+				seen = append(seen, req.URL.Query())
+				paths = append(paths, req.URL.Path)
+				mu.Unlock()
+				if req.URL.Path == "/items" {
+					w.Write([]byte("grp\n"))
+					return
+				}
+				http.Error(w, "stub", http.StatusInternalServerError)
+			}))
+			for i := 0; i < 10; i++ {
+				a, b := uint32(1+r.Int63n(1<<32-1)), uint32(1+r.Int63n(1<<32-1))
+				if a > b {
+					a, b = b, a
+				}
+				arch := r.Intn(4) - 1
+				mu.Lock()
+				seen, paths = nil, nil
+				mu.Unlock()
+				var res cliResult
+				wantPath := "/view"
+				if i%2 == 0 {
+					res = runCLI(c, "view", "-src-base", stub.URL, "-src", "d/f.wsp", "-archive", strconv.Itoa(arch), "-from", wt.Timestamp(a).String(), "-until", wt.Timestamp(b).String(), "-text-out", "")
+				} else {
+					wantPath = "/sum"
+					res = runCLI(c, "sum", "-src-base", stub.URL, "-item", "grp", "-src", "*.wsp", "-archive", strconv.Itoa(arch), "-from", wt.Timestamp(a).String(), "-until", wt.Timestamp(b).String(), "-text-out", "")
+				}
+				c.Count("cli_flag_checks", 1)
+				mu.Lock()
+				var q url.Values
+				for k := range seen {
+					if paths[k] == wantPath {
+						q = seen[k]
+					}
+				}
+				mu.Unlock()
+				if q == nil {
+					c.Violationf("cli-forwarding-no-request", res.brief(), "the command did not send a %s request to the server", wantPath)
+					break
+				}
+				c.Count("forwarded_requests_checked", 1)
+				pf, e1 := wt.ParseTimestamp(q.Get("from"))
+				pu, e2 := wt.ParseTimestamp(q.Get("until"))
+				pn, e3 := wt.ParseTimestamp(q.Get("now"))
+				if e1 != nil || e2 != nil || e3 != nil || uint32(pf) != a || uint32(pu) != b || int64(pn) < res.T0-1 || int64(pn) > res.T1+1 || q.Get("retention") != strconv.Itoa(arch) {
+					c.Violationf("cli-forwarding-changes-arguments", fw.J{"run": res.brief(), "query": q, "from": a, "until": b, "archive": arch, "clock_between": []int64{res.T0, res.T1}},
+						"%s -from %s -until %s -archive %d against a server sent from=%q until=%q now=%q retention=%q", wantPath[1:], wt.Timestamp(a), wt.Timestamp(b), arch, q.Get("from"), q.Get("until"), q.Get("now"), q.Get("retention"))
+					break
+				}
+			}
+			stub.Close()
 		}
 		for _, bad := range []string{"1m:2h,", "+1m:2h", "1m:90s", "1m", "2147483648s:4294967296s", "1x:2y"} {
 			p := filepath.Join(dir, "flag-bad.wsp")
